@@ -27,7 +27,10 @@ CONSTANTS Keys,     \* keys the storage may hold
           Width,    \* functions per handler-what, e.g. <<7, 2>>
           Limits,   \* set of numResults
           Markers,  \* set of markers besides NoMarker
-          Export    \* TRUE: print every finished case for the conformance driver
+          Export,   \* TRUE: print every finished case for the conformance driver
+          CallerReverses \* FALSE as coded now.  TRUE = handleGetTable before the fix 2cf30576: it
+                    \* reversed the LOD list for fromEnd although getTableFromLODs walks the list
+                    \* from the end itself (TableAssembly_bad_caller.cfg: FinalFirst fails)
 
 ASSUME \A s \in Splits : /\ Len(s) >= 1
                          /\ \A i \in 1..(Len(s) - 1) : s[i][2] = s[i + 1][1]
@@ -120,8 +123,10 @@ AddRows(rows, i, s) ==
 Load ==
     /\ pc = "load"
     /\ LET n   == Len(inp.lods)
+           \* handleGetTable: data_model.GetLODs yields the LODs in ascending time order
+           lods == IF CallerReverses /\ inp.desc THEN [i \in 1..n |-> inp.lods[n - i + 1]] ELSE inp.lods
            k   == IF inp.desc THEN n - li + 1 ELSE li      \* k = len(lods) - k - 1
-           lod == inp.lods[k]
+           lod == lods[k]
            next == /\ pc' = (IF li < n THEN "load" ELSE "pad")
                    /\ li' = (IF li < n THEN li + 1 ELSE li)
        IN IF ToTime < lod[1] \/ lod[2] < FromTime
@@ -194,4 +199,5 @@ FinalWindow   == Done => WindowRespected(inp, out)
 FinalLimit    == Done => LimitRespected(inp, out)
 FinalFirst    == Done => FirstRows(inp, out)
 FinalHasMore  == Done => HasMoreExact(inp, out)
+FinalIsSpecOut == Done => out = SpecOut(inp)      \* the relation leaves no freedom
 ===============================================================================
